@@ -100,6 +100,11 @@ var c10Tmpls = []c10Tmpl{
 	{"length as $n | 1 | . += $n", "any", "1", true, "literal-mutate"},
 	{"(.. | select(kind == \"scalar\")) as $x ireduce (0; . += 1)", "any", "1", true, "literal-mutate"},
 	{"\"s\" | . += \"x\" | . += \"y\"", "any", "1", true, "literal-mutate"},
+	// a constant side file loaded for every document and then changed in place: each document starts from the file
+	{". as $d | .cfg = (load(\"SIDE.yaml\") | .tags += [$d | length])", "map", "1", true, "load-mutate"},
+	{". as $d | .x = (load(\"SIDE.yaml\") | .n += ($d | length) | .sub.k += \"!\" | [.n, .sub.k])", "map", "1", true, "load-mutate"},
+	{"length as $n | .a = (load(\"SIDE.yaml\") | del(.tags[0]) | .tags += [$n] | .tags)", "map", "1", true, "load-mutate"},
+	{".b = (load(\"SIDE.yaml\") | .tags += [\"t\"] | .tags | length)", "map", "1", true, "load-mutate"},
 	{"pick([\"a\", \"b\"])", "map", "1", false, "pick-root"},
 	{"pick([0])", "seq", "1", false, "pick-root"},
 	{"omit([\"a\"])", "map", "1", false, "pick-root"},
